@@ -27,6 +27,11 @@ type svidSource struct {
 // GetX509SVID returns the current X.509 certificate identity as a SPIFFE SVID.
 // Implements the go-spiffe x509 source interface.
 func (s *svidSource) GetX509SVID() (*x509svid.SVID, error) {
+	// Wait for readiness before taking the read lock: Run holds the write lock
+	// while it performs the initial fetch and signals readiness, so waiting for
+	// readyCh with the read lock held deadlocks both when we get here first.
+	<-s.spiffe.readyCh
+
 	s.spiffe.lock.RLock()
 	defer s.spiffe.lock.RUnlock()
 
